@@ -21,6 +21,17 @@ pub fn create_post_work() -> Box<BeWork> {
     Box::new(PostWork {})
 }
 
+/// A post v2 name is a Pascal string: one length byte, at most 255 bytes of name.
+fn check_glyph_name_lengths<'a>(mut names: impl Iterator<Item = &'a str>) -> Result<(), Error> {
+    match names.find(|name| name.len() > u8::MAX as usize) {
+        Some(name) => Err(Error::OutOfBounds {
+            what: "Length of glyph name for post".into(),
+            value: format!("{} ('{name}')", name.len()),
+        }),
+        None => Ok(()),
+    }
+}
+
 impl Work<Context, AnyWorkId, Error> for PostWork {
     fn id(&self) -> AnyWorkId {
         WorkId::Post.into()
@@ -75,9 +86,11 @@ impl Work<Context, AnyWorkId, Error> for PostWork {
                 })
                 .collect();
 
+            check_glyph_name_lengths(final_glyph_names.iter().map(|g| g.as_str()))?;
             Post::new_v2(final_glyph_names.iter().map(|g| g.as_str()))
         } else {
             // use the original glyph names as-is
+            check_glyph_name_lengths(glyph_order.names().map(|g| g.as_str()))?;
             Post::new_v2(glyph_order.names().map(|g| g.as_str()))
         };
 
